@@ -131,6 +131,8 @@ void run_body(const Body& body, const uint8_t* d, size_t n, Outcome& o) {
   } catch (...) {
     o.fail("exception", "escaping non-std exception");
   }
+  alarm(0);
+  g_current = nullptr;  // the outcome may be destroyed before a late sanitizer exit report
 }
 
 std::string save_tape(const std::string& dir, const Config& cfg,
